@@ -703,6 +703,19 @@ def run(prog, rep, tier):
                             and isinstance(owner_.elt.left, ast.Name) and isinstance(comp.target, ast.Name) and owner_.elt.left.id == comp.target.id:
                         rep.ok("R4-readonly", f.qualname + "#" + fld, "read only in a None test (over a tuple of the containers)")
                         continue
+                truthy = None
+                if isinstance(par, (ast.Tuple, ast.List)):
+                    gp_ = parents.get(par) if isinstance(parents, dict) else None
+                    if isinstance(gp_, ast.Call) and dump(gp_.func) in ("all", "any") and gp_.args and gp_.args[0] is par:
+                        truthy = dump(gp_)[:60]
+                elif isinstance(par, ast.BoolOp) or (isinstance(par, ast.UnaryOp) and isinstance(par.op, ast.Not)) or (isinstance(par, ast.Call) and dump(par.func) == "bool"):
+                    truthy = dump(par)[:60]
+                if truthy and f.name == "is_initialized":
+                    # "initialised" means "a start state is stored", not "the stored container is non-empty"
+                    rep.violate("R4-readonly", f.qualname, "%s is tested for truth (%s), not for `is not None`: a stored but empty container (e.g. no genomic models) counts as "
+                                "uninitialised, evolve() then calls initialize() and the stored initial state is overwritten" % (fld, truthy), where(f, n),
+                                "self._%s is not None" % fld, truthy)
+                    continue
                 if isinstance(par, ast.Call) and prog.dotted(f.module, par.func) == "copy.copy":
                     # a shallow copy shares the contained objects with the initial state
                     rep.violate("R4-readonly", f.qualname, "%s is handed out through a shallow copy" % fld, where(f, n),
